@@ -14,6 +14,7 @@ import (
 	"io/ioutil"
 	"os"
 	"path/filepath"
+	"regexp"
 	"sort"
 	"strings"
 	"sync"
@@ -34,7 +35,8 @@ const (
 
 type Topic struct {
 	Stream bool `json:"stream"`
-	N      int  `json:"n"` // stream 1..3 or feed 1..3
+	N      int  `json:"n"`              // stream 1..3 or feed 1..3
+	Dest   bool `json:"dest,omitempty"` // host scenarios: the client is the rwc destination rule (else a websocket client)
 }
 
 type Op struct {
@@ -572,7 +574,7 @@ func nameShapes(r *lib.Rng, c *Case) {
 // without observation, then a tail of replaces / new rules / deletes / re-adds with the usual probes
 // and the table read after every operation.
 func genWide(r *lib.Rng, K int) Case {
-	c := Case{Kind: fmt.Sprintf("wide%d", K), Topics: []Topic{{true, 1}, {true, 2}, {false, 1}, {true, 1}}}
+	c := Case{Kind: fmt.Sprintf("wide%d", K), Topics: []Topic{{Stream: true, N: 1}, {Stream: true, N: 2}, {N: 1}, {Stream: true, N: 1}}}
 	feeds := func() []int {
 		fs := []int{}
 		for i, n := 0, r.Range(1, 2); i < n; i++ {
@@ -670,6 +672,12 @@ func oracle(c Case, idx int, res *lib.Result) {
 	reg := map[int]bool{}
 	rules := map[int][]int{}
 	wf := wellFormed(c)
+	if c.Panic && len(c.Outs) == 0 && strings.HasPrefix(c.Detail, "child process") {
+		// the whole process running the code under test died while this history was executing alone
+		m := regexp.MustCompile(`(panic: [^\n]*|fatal error: [^\n]*)`).FindString(c.Detail)
+		bad("host-process-died", c.Kind, "the process running the hub died during this history ("+m+")"+histTo(len(c.Ops)-1))
+		return
+	}
 	for i, o := range c.Ops {
 		if i >= len(c.Outs) {
 			what := "hub-panic"
@@ -805,6 +813,14 @@ func oracle(c Case, idx int, res *lib.Result) {
 func (c *Case) opString(o Op) string {
 	switch o.K {
 	case "Reg", "Unreg":
+		if strings.HasPrefix(c.Kind, "host") && o.C >= 1 && o.C <= len(c.Topics) {
+			t := c.Topics[o.C-1]
+			role := "websocket client on /ws/" + c.topicName(t)
+			if t.Dest {
+				role = "destination rule on " + c.topicName(t)
+			}
+			return fmt.Sprintf("%s c%d (%s)", o.K, o.C, role)
+		}
 		return fmt.Sprintf("%s c%d", o.K, o.C)
 	case "Add":
 		return fmt.Sprintf("Add %s %v", c.sname(o.S), o.F)
@@ -869,7 +885,7 @@ func childJob(p json.RawMessage) json.RawMessage {
 	if err := json.Unmarshal(p, &c); err != nil {
 		panic(err)
 	}
-	if c.Kind == "host" {
+	if strings.HasPrefix(c.Kind, "host") {
 		runHost(&c)
 		b, _ := json.Marshal(c)
 		return b
@@ -888,6 +904,9 @@ func childJob(p json.RawMessage) json.RawMessage {
 
 func main() {
 	if childrun.IsChild("child") || childrun.IsChild("host") {
+		if l, err := log.ParseLevel(os.Getenv("VERIF_LOGLEVEL")); err == nil {
+			log.SetLevel(l) // behaviour must not depend on the log level
+		}
 		childrun.Serve(childJob)
 	}
 	a := lib.ParseArgs()
@@ -903,7 +922,7 @@ func main() {
 		cases = []Case{c}
 	} else {
 		// the three shortest histories of defect F9 run first (corpus), then the random ones
-		t := []Topic{{true, 1}, {true, 2}, {false, 1}, {true, 1}}
+		t := []Topic{{Stream: true, N: 1}, {Stream: true, N: 2}, {N: 1}, {Stream: true, N: 1}}
 		pre := []Op{{K: "Reg", C: 1}, {K: "Add", S: 1, F: []int{1}}}
 		for _, tail := range [][]Op{
 			{{K: "Del", S: 1}, {K: "Unreg", C: 1}},
@@ -931,6 +950,9 @@ func main() {
 		// the host scenarios (vw.Stream() with default options, a stream subscriber that stalls)
 		for i := 0; i < a.Pick(4, 24); i++ {
 			cases = append(cases, genHost(rng.Fork()))
+		}
+		for i := 0; i < a.Pick(4, 24); i++ {
+			cases = append(cases, genHostRepoint(rng.Fork()), genHostViewers(rng.Fork()))
 		}
 		n := a.Pick(1000, 15000)
 		for i := 0; i < n; i++ {
@@ -964,9 +986,11 @@ func main() {
 	// host scenarios share one vw instance in a child of their own (vw.Stream() is one per process);
 	// the hub histories run in other children at the same time
 	childrun.JournalPath = filepath.Join(a.Out, "current.json")
+	// one run in three has the code under test log at debug, one at trace level (output discarded)
+	os.Setenv("VERIF_LOGLEVEL", []string{"panic", "trace", "debug"}[int(a.Seed%3+3)%3])
 	var hostIdx, hubIdx []int
 	for i, c := range cases {
-		if c.Kind == "host" {
+		if strings.HasPrefix(c.Kind, "host") {
 			hostIdx = append(hostIdx, i)
 		} else {
 			hubIdx = append(hubIdx, i)
